@@ -295,6 +295,14 @@ impl Chain {
 
         let mut prev_block = self.get_genesis()?.ok_or(ChainError::EmptyChain)?;
 
+        // The loop below checks every later block's transactions against its
+        // tx_root; the genesis block's own transactions need the same check.
+        if !prev_block.verify_tx_root() {
+            return Err(ChainError::ValidationFailed(
+                "genesis tx_root does not match its transactions".to_string(),
+            ));
+        }
+
         for h in 1..=height {
             let block = self.get_block_at(h)?.ok_or(ChainError::BlockNotFound(h))?;
 
